@@ -488,8 +488,18 @@ func TestF23_NewValueSetUnrepresentable(t *testing.T) {
 			t.Fatalf("subtype %q is not reported back: %v", st, vs.Values())
 		}
 	}
+	// names that are no identifiers or do not survive upper-casing (accepted since F25 moved names into the tag)
+	for _, n := range []string{"ı", "1a", "_a"} {
+		vs, err := am.NewValueSet([]am.Value{{Name: n, Type: it}})
+		if err != nil {
+			t.Fatalf("name %q: %v", n, err)
+		}
+		if v := vs.Named(n); v == nil || v.Name != n {
+			t.Fatalf("name %q is not reported back: %v", n, vs.Values())
+		}
+	}
 	// not representable: an error, not a different set and not a panic
-	for _, v := range []am.Value{{Type: it, Subtype: "a,b"}, {Name: "ı", Type: it}, {Name: "1a", Type: it}, {Name: "_a", Type: it}} {
+	for _, v := range []am.Value{{Type: it, Subtype: "a,b"}, {Name: "a,b", Type: it}} {
 		func() {
 			defer func() {
 				if p := recover(); p != nil {
@@ -501,5 +511,63 @@ func TestF23_NewValueSetUnrepresentable(t *testing.T) {
 				t.Errorf("%q/%q accepted, reported back as %v", v.Name, v.Subtype, vs.Values())
 			}
 		}()
+	}
+}
+
+// F24 (C01, C02, C03): vertex identity was the string name/Type.String()/subtype, so the parameter
+// (a/int, int, x) and the value (a, int, int/x) were one vertex: the function ran with a value of another name.
+func TestF24_VertexIdentityCollision(t *testing.T) {
+	type in struct {
+		am.Struct
+		V int `argmapper:"a/int,subtype=x"`
+	}
+	called := false
+	f := am.MustFunc(am.NewFunc(func(in) { called = true }))
+	res := f.Call(am.NamedSubtype("a", 7, "int/x"))
+	if res.Err() == nil || called {
+		t.Fatalf("parameter a/int (subtype x) was satisfied by the value a (subtype int/x): err=%v called=%v", res.Err(), called)
+	}
+}
+
+// F25 (C06, C08, C15): names that are no exported identifiers (fine as tag names and with Call) made Redefine
+// panic in reflect.StructOf; NewValueSet refused them.
+func TestF25_NamesThatAreNoIdentifiers(t *testing.T) {
+	type in struct {
+		am.Struct
+		A int `argmapper:"a-b"`
+		B int `argmapper:"_x"`
+	}
+	f := am.MustFunc(am.NewFunc(func(v in) int { return v.A*10 + v.B }))
+	var rf *am.Func
+	func() {
+		defer func() {
+			if p := recover(); p != nil {
+				t.Fatalf("Redefine panicked: %v", p)
+			}
+		}()
+		var err error
+		rf, err = f.Redefine()
+		if err != nil {
+			t.Fatalf("Redefine: %v", err)
+		}
+	}()
+	res := rf.Call(am.Named("a-b", 4), am.Named("_x", 2))
+	if res.Err() != nil || res.Out(0).(int) != 42 {
+		t.Fatalf("redefined call: %v %v", res.Err(), res)
+	}
+	vs, err := am.NewValueSet([]am.Value{{Name: "a-b", Type: reflect.TypeOf(0)}, {Name: "ſ", Type: reflect.TypeOf("")}})
+	if err != nil {
+		t.Fatalf("NewValueSet: %v", err)
+	}
+	if vs.Named("a-b") == nil || vs.Named("ſ") == nil {
+		t.Fatalf("names not found: %v", vs.Values())
+	}
+}
+
+// F26 (C08): an output filter given to NewFunc was ignored by Redefine.
+func TestF26_OutputFilterFromNewFunc(t *testing.T) {
+	f := am.MustFunc(am.NewFunc(func(int) string { return "" }, am.FilterOutput(func(am.Value) bool { return false })))
+	if _, err := f.Redefine(am.Typed(1)); err == nil {
+		t.Fatal("Redefine succeeded although the output filter given to NewFunc rejects every output")
 	}
 }
